@@ -3,6 +3,7 @@ from __future__ import annotations
 
 import ast
 import copy
+import os
 
 from .pyfacts import AnalysisError, Repo, src, dict_literal
 from . import efg
@@ -12,6 +13,7 @@ ASM = 'hidc/codegen/asm.py'
 STDLIB = 'hidc/codegen/stdlib.py'
 
 INLINE_HELPERS = ('goto', 'check_index', 'mark')
+DEEP_MAX_PATHS = 8000
 
 
 class GenFacts:
@@ -38,6 +40,7 @@ class GenFacts:
                             and n != 'gen_lines'}
         self._paths = {}
         self._inlined = {}
+        self.deep = set()      # methods enumerated with loop bodies followed three times (thorough tier)
         # asm class hierarchy
         self.asm_bases = repo.class_bases(ASM)
         self.cond_halts = repo.subclasses(ASM, 'ConditionalHalt')
@@ -82,7 +85,16 @@ class GenFacts:
             fn = self.methods.get(name)
             if fn is None:
                 raise AnalysisError(f'CodeGen.{name} not found')
-            self._paths[name] = efg.enumerate_paths(fn, unroll=self.unroll, name=name)
+            ps = None
+            if os.environ.get('HIDVERIF_DEEP') and tuple(self.unroll) == (0, 1, 2):
+                try:
+                    ps = efg.enumerate_paths(fn, unroll=(0, 1, 2, 3), name=name, max_paths=DEEP_MAX_PATHS)
+                    self.deep.add(name)
+                except AnalysisError:
+                    ps = None       # path set not enumerable at depth 3: stay at the quick tier's depth
+            if ps is None:
+                ps = efg.enumerate_paths(fn, unroll=self.unroll, name=name)
+            self._paths[name] = ps
         return self._paths[name]
 
     def helpers(self):
